@@ -96,6 +96,9 @@ def cleanup_scratch():
     r = os.environ.get("LIAN_SIM_SCRATCH_DIR")
     if r and os.environ.get("LIAN_SIM_SCRATCH_OWNER") == str(os.getpid()):
         shutil.rmtree(r, ignore_errors=True)
+        # the temporary directories the runs used on the machine's other file system
+        for base in {os.environ.get("LIAN_SIM_OTHER_FS") or "/tmp", os.environ.get("TMPDIR") or "/tmp", "/tmp"}:
+            shutil.rmtree(os.path.join(base, "lian-sim-other-" + os.path.basename(r.rstrip("/"))), ignore_errors=True)
 
 
 def pinned_env(extra=None, hashseed="0"):
@@ -296,8 +299,57 @@ def load_known(pid):
 _ENGINE = None
 
 
+def private_tmpdir():
+    """Every process of the simulator (pool worker, replay, digest run) has its OWN temporary directory: the workers run in
+    parallel, and code under test that goes through fixed names in the temporary directory must not couple them (two
+    processes sharing a machine are simulated on purpose, under a seeded scheduler - see checks/c14.py - never by accident).
+    The machine's original temporary directory stays available as LIAN_SIM_OTHER_FS (another file system than the scratch)."""
+    import tempfile
+    os.environ.setdefault("LIAN_SIM_OTHER_FS", os.environ.get("TMPDIR") or "/tmp")
+    d = os.path.join(scratch_root(), f"tmp-{os.getpid()}")
+    os.makedirs(d, exist_ok=True)
+    os.environ["TMPDIR"] = d
+    tempfile.tempdir = d
+    return d
+
+
+def select_tmp(kind):
+    """per run: the private temporary directory of this process lies on the scratch file system ("scratch", where the
+    simulated workspaces are) or on the machine's other file system ("other": rename / replace from there into a workspace
+    crosses a device boundary)."""
+    import tempfile
+    base = private_tmpdir()
+    if kind == "other":
+        # below a directory named after the scratch root, so that the top-level process removes it together with the scratch
+        other = os.path.join(os.environ.get("LIAN_SIM_OTHER_FS") or "/tmp", "lian-sim-other-" + os.path.basename(scratch_root().rstrip("/")),
+                             f"tmp-{os.getpid()}")
+        try:
+            os.makedirs(other, exist_ok=True)
+            _OTHER_TMP.add(other)
+            base = other
+        except OSError:
+            pass
+    os.environ["TMPDIR"] = base
+    tempfile.tempdir = base
+    return base
+
+
+_OTHER_TMP = set()
+
+
+def _remove_other_tmp():
+    import shutil
+    for d in list(_OTHER_TMP):
+        shutil.rmtree(d, ignore_errors=True)
+
+
+import atexit  # noqa: E402
+atexit.register(_remove_other_tmp)
+
+
 def _worker_init(pid):
     global _ENGINE
+    private_tmpdir()
     prepare_lian_imports()
     _ENGINE = load_engine(pid)
     if hasattr(_ENGINE, "setup_worker"):
@@ -656,6 +708,7 @@ def _confirm_in_fresh_process(pid, path, sig):
 # --------------------------------------------------------------------------- replay / digests
 
 def run_replay(pid, path, machine=False):
+    private_tmpdir()
     prepare_lian_imports()
     engine = load_engine(pid)
     if hasattr(engine, "setup_worker"):
@@ -686,6 +739,7 @@ def run_replay(pid, path, machine=False):
 
 
 def run_digests(pid, tier, batch_seed, lo, hi):
+    private_tmpdir()
     prepare_lian_imports()
     engine = load_engine(pid)
     if hasattr(engine, "setup_worker"):
